@@ -1,5 +1,10 @@
 package gen
 
+import (
+	"fmt"
+	"strings"
+)
+
 // ---- alphabets ----
 
 func stg(not bool, n string) AStage { return AStage{Not: not, Name: n} }
@@ -108,4 +113,51 @@ func hasByte(s string, b byte) bool {
 		}
 	}
 	return false
+}
+
+// LargeDeps: fields larger than a bounded product reaches but ordinary in the archive - many relations, many
+// alternatives in one relation, long architecture lists, many profile groups, many stages in a group, long names and
+// numbers. Sizes sit around powers of two (slice growth) and a few round numbers.
+func LargeDeps() []ADep {
+	reps := DepRepresentatives()
+	withName := func(p APoss, i int) APoss {
+		q := p
+		q.Name = fmt.Sprintf("%s%d", p.Name, i)
+		return q
+	}
+	var out []ADep
+	for _, n := range []int{8, 9, 16, 17, 32, 33, 40, 64, 65, 100, 257} {
+		var d ADep
+		for i := 0; i < n; i++ {
+			d = append(d, ARel{withName(reps[i%len(reps)], i)})
+		}
+		out = append(out, d)
+		// the same number of alternatives in a single relation, and in the middle relation of three
+		var r ARel
+		for i := 0; i < n; i++ {
+			r = append(r, withName(reps[(i*3)%len(reps)], i))
+		}
+		out = append(out, ADep{r}, ADep{ARel{reps[0]}, r, ARel{reps[2]}})
+	}
+	for _, n := range []int{5, 8, 9, 12, 16, 17, 33} {
+		var archs []string
+		var profs [][]AStage
+		var stages []AStage
+		groups := ""
+		for i := 0; i < n; i++ {
+			archs = append(archs, []string{"amd64", "i386", "linux-any", "kfreebsd-amd64", "any-arm64", "hurd-i386"}[i%6])
+			profs = append(profs, []AStage{{Not: i%2 == 0, Name: fmt.Sprintf("p%d", i)}})
+			stages = append(stages, AStage{Not: i%3 == 0, Name: fmt.Sprintf("s%d", i)})
+			groups += "p"
+		}
+		out = append(out,
+			ADep{ARel{{Name: "a", Archs: archs, Groups: "a"}}, ARel{{Name: "b"}}},
+			ADep{ARel{{Name: "a", Archs: archs, ArchNot: true, Op: ">=", Num: "1", Groups: "va"}}},
+			ADep{ARel{{Name: "a", Profiles: profs, Groups: groups}}, ARel{{Name: "b", Profiles: profs[:1], Groups: "p"}}},
+			ADep{ARel{{Name: "a", Profiles: [][]AStage{stages}, Groups: "p"}}},
+			ADep{ARel{{Name: "a", Archs: archs, Profiles: [][]AStage{stages, stages[:2]}, Op: "<<", Num: "2", Groups: "vapp"}}})
+	}
+	long := strings.Repeat("libfoo-bar1.2+x", 12)
+	out = append(out, ADep{ARel{{Name: long}}, ARel{{Name: "b", Op: "=", Num: strings.Repeat("1.2~rc3+b", 20) + "-1", Groups: "v"}}, ARel{{Name: long + "z", Qual: "any"}}})
+	return out
 }
